@@ -30,6 +30,7 @@ TRUSTED = [
     "the harness passes (k-th bind call gets name +k / -k)",
     "specification coq/BindSpec.v: the reference monitor over traces (plain list of live bindings, immediate removal) and its "
     "reading of 'newest first' = reverse list order (man/tickit.7)",
+    "coq/BindAbs.v: the tombstone-free immediate-removal machine C16_refines refers to (relational, not run by the check)",
     "harness/C16.c scripted handlers and ocaml/drv_C16.ml environment implement the same scripts",
 ]
 
